@@ -398,6 +398,9 @@ func (p *parser) mul() Expr {
 }
 
 func (p *parser) unary() Expr {
+	if t := p.peek(); t.kind == "ident" && (t.val == "forall" || t.val == "exists" || t.val == "let") {
+		return p.expr()
+	}
 	if p.isOp("!") || p.isOp("-") || p.isOp("*") || p.isOp("&") {
 		o := p.next().val
 		x := p.unary()
@@ -551,6 +554,8 @@ type Contract struct {
 	ModDeclared bool
 	Allocates   bool
 	PureParams  []string
+	Denotes     Expr // closures: the spec-level function value this closure equals
+	DenotesText string
 }
 
 type PredDef struct {
@@ -611,7 +616,7 @@ type SpecFile struct {
 var directiveWords = map[string]bool{
 	"func": true, "requires": true, "ensures": true, "modifies": true, "loop": true, "pred": true, "fun": true,
 	"ufun": true, "axiom": true, "lemma": true, "pure": true, "check": true, "immutable": true, "trusted": true,
-	"inline": true, "package": true, "allocates": true, "pureparam": true, "guarded_by": true, "havocs": true, "opaque": true, "reads": true, "call": true,
+	"inline": true, "package": true, "allocates": true, "pureparam": true, "denotes": true, "guarded_by": true, "havocs": true, "opaque": true, "reads": true, "call": true,
 }
 
 // parseSpecText parses the joined text of //@ lines. lines carries (text,lineNo).
@@ -736,6 +741,17 @@ func parseSpecLines(file string, pkg string, lines []specLine) (*SpecFile, error
 				return nil, errf("inline outside func")
 			}
 			cur.Inline = true
+		case "denotes":
+			if cur == nil {
+				return nil, errf("denotes outside func")
+			}
+			e, err := ParseExpr(d.text)
+			if err != nil {
+				return nil, errf("%v", err)
+			}
+			cur.Denotes = e
+			cur.DenotesText = d.text
+			cur.Pure = true
 		case "allocates":
 			if cur == nil {
 				return nil, errf("allocates outside func")
@@ -823,7 +839,7 @@ func parseSpecLines(file string, pkg string, lines []specLine) (*SpecFile, error
 		case "ufun":
 			// ufun name(T1, T2) R
 			lp := strings.Index(d.text, "(")
-			rp := strings.LastIndex(d.text, ")")
+			rp := matchParen(d.text, lp)
 			if lp < 0 || rp < lp {
 				return nil, errf("ufun: malformed")
 			}
@@ -950,4 +966,23 @@ func extractSpecLines(src string) []specLine {
 		}
 	}
 	return out
+}
+
+func matchParen(s string, lp int) int {
+	if lp < 0 {
+		return -1
+	}
+	depth := 0
+	for i := lp; i < len(s); i++ {
+		switch s[i] {
+		case '(':
+			depth++
+		case ')':
+			depth--
+			if depth == 0 {
+				return i
+			}
+		}
+	}
+	return -1
 }
